@@ -24,13 +24,13 @@ LEVEL = "fault_enumeration"
 ALPHABET = ["normal", "zero", "tiny", "huge", "overflow", "nan", "inf"]
 MODERATE = {"normal", "zero", "tiny", "huge"}
 RULE = ("fault enumeration: for each configuration in {failure threshold 0,1e-30,0.1,1e30} x {matrix epsilon 0,1e-6} x {Newton,eigh} "
-        "x {preconditioner interval 1,2} x {jit, pmap int16-quantised, sharded 2-device mesh} x {x64 on, off}, plus 48 configurations with all-1x1 statistics or a 64x64 statistic (thorough: x graft {SGD, RMSProp, normalised AdaGrad}), ALL words of length T "
+        "x {preconditioner interval 1,2} x {jit, pmap int16-quantised, sharded 2-device mesh} x {x64 on, off}, plus 72 configurations with all-1x1 statistics, a 64x64 statistic, or a padded 1x1 statistic among larger ones (ragged last block) (thorough: x graft {SGD, RMSProp, normalised AdaGrad}), ALL words of length T "
         "(T=3 quick: 343 words, 399 steps; thorough T=5 restricted to <=3 non-normal letters) over the alphabet "
         "{normal, zero, tiny 1e-12, huge 1e12, overflow 1e30, NaN entry, +-Inf entry} are replayed through one compiled step; "
         "evaluations = words; a word is non-trivial when it contains a rejected root attempt or a poisoned (NaN/Inf/overflow) step; "
         "distinct by (configuration, word)")
 ASSUMPTIONS = ["reported errors are read from training_metrics of the post-state (generate_training_metrics=True)",
-               "main grid: two leaves (4,3) and (5,), block 8: three statistics of sizes 4,3,5 padded to a common size; extra configurations: all-1x1 statistics {(1,),(1,1)} and one 64x64 statistic {(64,),(3,)}"]
+               "main grid: two leaves (4,3) and (5,), block 8: three statistics of sizes 4,3,5 padded to a common size; extra configurations: all-1x1 statistics {(1,),(1,1)}, one 64x64 statistic {(64,),(3,)}, ragged last block of size one {(9,4),(3,)}"]
 DECIDING = ["steps", "accepts", "rejects_by_threshold", "rejects_by_nan", "non_refresh_steps", "poisoned_steps", "moderate_update_checked"]
 MIN_NONTRIVIAL = 100
 TIMEOUT = {"quick": 1500, "thorough": 7200}
@@ -51,12 +51,14 @@ def all_configs(tier="quick"):
       c["graft"] = graft
     out.append(c)
   # other statistic sizes: all-1x1 statistics (scalar root branch) and one 64x64 statistic (large reductions)
-  for x64, mode, eigh, interval, tree in itertools.product([True, False], ["jit", "pmapq", "sharded"], [False, True], [1, 2], ["ones", "big"]):
+  for x64, mode, eigh, interval, tree in itertools.product([True, False], ["jit", "pmapq", "sharded"], [False, True], [1, 2], ["ones", "big", "ragged1"]):
     out.append({"x64": x64, "mode": mode, "thr": 0.1, "eps": 1e-6, "eigh": eigh, "interval": interval, "tree": tree})
   return out
 
 
-TREES = {"default": {"a": [4, 3], "b": [5]}, "ones": {"a": [1], "b": [1, 1]}, "big": {"a": [64], "b": [3]}}
+TREES = {"default": {"a": [4, 3], "b": [5]}, "ones": {"a": [1], "b": [1, 1]}, "big": {"a": [64], "b": [3]},
+         # ragged last block of size one: a padded 1x1 statistic among larger ones
+         "ragged1": {"a": [9, 4], "b": [3]}}
 
 
 def tree_of(c):
